@@ -12,11 +12,17 @@ def instances(tier):
         yield 'core4', dict(BASE, max_len=4, win_end=20), 'AlphaC06core', None
         yield 'len3', dict(BASE, max_len=3, win_end=20), 'AlphaC06', None
         yield 'sim7', dict(BASE, max_len=7, win_end=20), 'AlphaC06', 'num=6000'
+        yield 'mute4', dict(BASE, max_len=4, win_end=20), 'AlphaC06mute', None
+        yield 'core4-labels-in-front', dict(BASE, max_len=4, win_end=20, join_labels=True), 'AlphaC06core', None
+        yield 'files3', dict(BASE, max_len=15, win_end=24, blocks_op='BlocksScope', emit_inv='EmitInc'), 'MCNoAlphabet', None
     else:
         yield 'core5', dict(BASE, max_len=5, win_end=20), 'AlphaC06core', None
         yield 'len4', dict(BASE, max_len=4, win_end=20), 'AlphaC06', None
         yield 'sim6', dict(BASE, max_len=6, win_end=20), 'AlphaC06', 'num=40000'
         yield 'sim9', dict(BASE, max_len=9, win_end=20), 'AlphaC06', 'num=40000'
+        yield 'mute5', dict(BASE, max_len=5, win_end=20), 'AlphaC06mute', None
+        yield 'core5-labels-in-front', dict(BASE, max_len=5, win_end=20, join_labels=True), 'AlphaC06core', None
+        yield 'files4', dict(BASE, max_len=20, win_end=30, blocks_op='BlocksScope', emit_inv='EmitInc'), 'MCNoAlphabet', None
 
 
 def run(chk):
@@ -26,7 +32,7 @@ def run(chk):
                 'include brackets (second and third file), an excluded block, a register-named and a keyword-named label, a '
                 'predefined data label. TLC checks ResolvesOnlyToVisible and NoDuplicateKeys on the specification. Every '
                 'definition sits at a distinct address, so the operand byte in the image names the definition chosen; the '
-                'real code is compared on accept/reject and image. Non-trivial = contains a definition or a reference.')
+                'real code is compared on accept/reject and image. The mute instances put definitions and references (resolvable, out of scope, undefined) inside #mute / #unmute stretches and muted includes. The labels-in-front instances write every label in front of the statement that follows it (same source line). The files instances append whole included files (Blocks of Asm.tla): up to three / four files and main-file fragments, a file label or file constant of the same name in several files, referenced from a local region of its own file, from its own file scope, and from the includer. Non-trivial = contains a definition or a reference.')
     chk.assumptions = ['labels immediately followed by an origin/zone directive are not generated']
     chk.exhaustive = True
     asmcheck.run_instances(chk, instances(chk.tier), WHAT, KINDS)
